@@ -27,7 +27,7 @@ ASSUMPTIONS = [
     "with link faults enabled bring-up may raise; only a reported success is held to the adopt/second/format clauses",
     "command payload schemas inside the NCP model are bellows' own tables (header layouts and negotiation logic are independent)",
 ]
-PROBES = ["second_connection_same_object", "reset_with_command_queued", "spontaneous_rstack_before_rst", "spontaneous_rstack_while_reset_pending", "startup_wait_timed_out", "startup_reset_consumed",
+PROBES = ["two_ezsp_objects_open", "second_connection_same_object", "reset_with_command_queued", "spontaneous_rstack_before_rst", "spontaneous_rstack_while_reset_pending", "startup_wait_timed_out", "startup_reset_consumed",
           "bringup_raised_under_faults", "bringup_retry_after_faults_ok", "second_query_sent", "version_gt_14", "renegotiated_after_reset", "sched.batch", "sched.reorder"]
 
 VERSIONS = list(range(4, 21))
@@ -36,6 +36,10 @@ BOOTS = (None, 0.2, 0.999, 1.0, 1.2, 2.5)
 
 def plan(tier):
     sweeps = []
+    # (first in the list: these cells carry their own second object; state that a changed tree keeps process-wide would otherwise show up in
+    # whatever cell happens to run second in a worker process, and such a report does not replay)
+    for VA, VB in ((8, 13), (13, 8), (4, 14), (14, 4), (8, 8), (16, 7)):
+        sweeps.append(("twin", {"VA": VA, "VB": VB}))
     for V in VERSIONS:
         for sock in (False, True):
             # a spontaneous start-up reset is a property of socket NCPs (zigbeed); a UART NCP booted long before the host opened the port
@@ -56,7 +60,67 @@ def plan(tier):
     }
 
 
+def run_twin(params, tape, detail=False):
+    """A second EZSP object (a second radio) is brought up while the first one is open: each negotiates with ITS OWN NCP, in the legacy format
+    first, and ends up with its own NCP's version and tables."""
+    import bellows.uart
+    import zigpy.serial
+
+    VA, VB = params["VA"], params["VB"]
+    rig_a = e3.StackRig(tape, version=VA, sched=False, fast_line=True, chunking=False, max_iters=400_000)
+    rig_b = e3.StackRig(tape, version=VB, loop=rig_a.loop, fast_line=True, chunking=False)
+    loop = rig_a.loop
+    viol, st = [], {}
+
+    async def bring(rig, label):
+        zigpy.serial.create_serial_connection = rig._create_serial_connection
+        bellows.uart.zigpy.serial.create_serial_connection = rig._create_serial_connection
+        try:
+            ez = await rig.bringup()
+            await ez.write_config({})
+            r = await ez.getEui64()
+            st[label] = ("ok", ez.ezsp_version, type(ez._protocol).VERSION, bytes(r[0].serialize()) == rig.ncp.eui64, rig.ncp.negotiated)
+            return ez
+        except Exception as e:  # noqa: BLE001
+            st[label] = ("raised", type(e).__name__, repr(e))
+            return None
+
+    async def main():
+        ez_a = await bring(rig_a, "A")
+        await bring(rig_b, "B")  # ... while A is still open
+        if ez_a is not None:
+            try:
+                r = await ez_a.getEui64()
+                st["A.after"] = bytes(r[0].serialize()) == rig_a.ncp.eui64
+            except Exception as e:  # noqa: BLE001
+                st["A.after"] = repr(e)
+
+    outcome, val = rig_a.run(main())
+    tag = f"two EZSP objects (NCP v{VA}, then NCP v{VB} while the first is open)"
+    if outcome != "done":
+        viol.append(("C09.config", "sim-" + outcome, f"{tag}: ended with {outcome}: {val!r}"))
+    for label, V, rig in (("A", VA, rig_a), ("B", VB, rig_b)):
+        o = st.get(label)
+        if o is None or o[0] != "ok":
+            viol.append(("C09.config", "twin-bringup-raised", f"{tag}: bring-up of connection {label} ended {o}; its NCP saw first frames {rig.ncp.first_after_reset[:2]}"))
+        elif o[1:] != (V, min(V, 14), True, True):
+            viol.append(("C09.adopt", "twin", f"{tag}: connection {label} ended with version {o[1]}, tables v{o[2]}, own EUI64 read {o[3]}, NCP negotiated {o[4]}"))
+        for i, first in enumerate(rig.ncp.first_after_reset):
+            if first is not None and (first[0] != "legacy" or first[1] != "version"):
+                viol.append(("C09.legacy", "twin-first-frame", f"{tag}: first EZSP frame NCP {label} saw after its reset #{i} was {first}"))
+        for (tt, raw, why) in rig.ncp.bad_requests[:1]:
+            viol.append(("C09.format", "twin-layout", f"{tag}: NCP {label} got request {raw.hex()}: {why}"))
+    if st.get("A.after") is not True:
+        viol.append(("C09.format", "twin-first-connection-disturbed", f"{tag}: a command on the first connection after the second came up gave {st.get('A.after')!r}"))
+    sig = hashlib.blake2b(repr(("twin", VA, VB, sorted((k, repr(v)) for k, v in st.items()))).encode(), digest_size=8).digest()
+    return {"viol": viol, "faults": {}, "probes": {"two_ezsp_objects_open": 1}, "vt": loop.time(), "iters": loop.iters, "sig": sig, "nontrivial": True,
+            "digest": hashlib.sha256(repr((rig_a.log, rig_b.log, sorted((k, repr(v)) for k, v in st.items()))).encode()).hexdigest()[:16],
+            "sample": {"scenario": "twin", "VA": VA, "VB": VB, "outcomes": {k: str(v) for k, v in st.items()}}}
+
+
 def run(scenario, params, tape, detail=False):
+    if scenario == "twin":
+        return run_twin(params, tape, detail)
     if scenario == "soak":
         # the whole-stack soak (dst/soak.py): one application object through several connection epochs with traffic, failures and
         # reconnects; this check reports the clauses of its own property from it
